@@ -946,6 +946,10 @@ class Engine:
         if isinstance(x, VNum) and x.is_int:
             # str(int): IntToStr handles only non-negative integers
             return z3.If(x.z >= 0, z3.IntToStr(x.z), z3.Concat(z3.StringVal("-"), z3.IntToStr(-x.z)))
+        if isinstance(x, VConst) and x.py in ("int", "float", "bool", "str", "list", "tuple"):
+            # str(type(v)): CPython prints "<class 'int'>", numpy scalars "<class 'numpy.int64'>" / "<class 'numpy.float64'>";
+            # only containment of the kind name is meaningful, which both spellings share (assumption listed in DESIGN 5)
+            return z3.StringVal(f"<class '{x.py}'>")
         raise Unsupported(f"str() of {x}")
 
     def e_Lambda(self, e, st):
@@ -1219,6 +1223,15 @@ class Engine:
             if isinstance(a, VOpaque):
                 return VNum(fresh("isinstance", BOOL))
             raise Unsupported(f"isinstance({a}, {cls})")
+        if name == "hasattr" and len(args) == 2 and isinstance(args[1], VStr) and z3.is_string_value(args[1].z) \
+                and args[1].z.as_string() == "__len__":
+            # decided from the declared kind of the argument: sequences / tuples / strings have a length, numbers do not
+            a = args[0]
+            if isinstance(a, (VSeq, VTuple, VStr)):
+                return VNum(z3.BoolVal(True))
+            if isinstance(a, (VNum, VNone)):
+                return VNum(z3.BoolVal(False))
+            raise Unsupported("hasattr(<unmodelled>, '__len__')")
         if name == "type":
             a = args[0]
             if isinstance(a, VNum):
